@@ -57,6 +57,10 @@ let p_sel = function
   | "dp" :: parts :: pw :: r -> let (e, r) = p_expr r in (SDynPart (e, ni parts, ni pw), r)
   | _ -> raise (Parse "sel")
 
+(* defaulted declarations of the current program: B = number of pins, defaults in creation order *)
+let cur_b = ref 0
+let cur_dfl : bv list ref = ref []
+
 let rec p_sels n r = if n = 0 then ([], r) else
   let (s, r) = p_sel r in let (ss, r) = p_sels (n - 1) r in (s :: ss, r)
 
@@ -72,6 +76,12 @@ let rec p_block lines =
 and p_stmt l rest =
   match l with
   | "D" :: x :: kind :: _w :: r -> let (e, _) = p_expr r in (Decl (ni x, (kind = "b"), e), rest)
+  | "DD" :: x :: kind :: _w :: k :: bits :: _ ->
+      (* Bit x = BitDefault(d) / UInt x = UIntDefault(d): the default node's output is the extra input B + k *)
+      let k = int_of_string k in
+      if k <> List.length !cur_dfl then raise (Parse "DD numbering");
+      cur_dfl := !cur_dfl @ [bv_of_string bits];
+      (Decl (ni x, (kind = "b"), EIn (nat_of_int (!cur_b + k))), rest)
   | "A" :: x :: np :: r -> let (p, r) = p_sels (int_of_string np) r in let (e, _) = p_expr r in (Assign (ni x, p, e), rest)
   | "R" :: t :: x :: _ -> (Read (ni t, ni x), rest)
   | "IF" :: r ->
@@ -115,14 +125,21 @@ let count_nodes g =
     | NCNot _ -> "cnot" | NCAnd _ -> "cand" | NCOr _ -> "cor")) g;
   String.concat "," (List.sort compare (Hashtbl.fold (fun k v acc -> Printf.sprintf "%s:%d" k v :: acc) h []))
 
-let run_program pid body vecs =
+let run_program pid npins body vecs =
+  cur_b := npins; cur_dfl := [];
   let (stmts, rest) = p_block body in
   if rest <> [] then raise (Parse ("trailing lines in program " ^ pid));
   let p = block_of stmts in
   let st = elab_prog (S O) p in
+  let dfl = !cur_dfl in
+  let res = if dfl = [] then [] else resolve_all st.eG (fin_prog (nat_of_int npins) (S O) p) in
   Printf.printf "%s - MH nodes=%d %s\n" pid (List.length st.eG) (count_nodes st.eG);
+  if dfl <> [] then
+    Printf.printf "%s - MD %s\n" pid (String.concat "," (List.map (fun ((k, _), l) ->
+      Printf.sprintf "%d:%s" (int_of_nat k) (if l then "loopy" else "final")) res));
   List.iteri (fun k vec ->
-    let inp = List.map bv_of_string vec in
+    let pins = List.map bv_of_string vec in
+    let inp = if dfl = [] then pins else pins @ resolved_rho pins dfl st.eG res in
     (match run_prog inp p with
      | None -> Printf.printf "%s %d MS UNDEF\n" pid k
      | Some (e, r) ->
@@ -152,8 +169,8 @@ let () =
   let rec progs = function
     | [] -> ()
     | ("P" :: pid :: _) :: rest ->
-        let rec skip_pins = function ("pin" :: _) :: r -> skip_pins r | r -> r in
-        let rest = skip_pins rest in
+        let rec skip_pins n = function ("pin" :: _) :: r -> skip_pins (n + 1) r | r -> (n, r) in
+        let (npins, rest) = skip_pins 0 rest in
         let rec take_body acc = function
           | ("V" :: _) :: r -> (List.rev acc, r)
           | l :: r -> take_body (l :: acc) r
@@ -164,7 +181,7 @@ let () =
           | ["E"] :: r -> (List.rev acc, r)
           | _ -> raise (Parse "vecs") in
         let (vecs, rest) = take_vecs [] rest in
-        (try run_program pid body vecs
+        (try run_program pid npins body vecs
          with Parse m -> Printf.printf "%s - MODEL-PARSE-ERROR %s\n" pid m);
         progs rest
     | l :: _ -> raise (Parse ("top: " ^ String.concat " " l))
